@@ -48,7 +48,9 @@ func HDecodeDecryptArbitrary() {
 			return
 		}
 	}
+	before := append([]byte{}, b...)
 	m, err := DecodeDecrypt(b, h, k, vRole(role))
+	vr.Assert("c04.input-unchanged", vr.EqBytes(b, before))
 	if err == nil {
 		vr.Assert("c04.dd.nonnil", m != nil)
 		vr.Cover("c04.dd.accepted")
